@@ -8,6 +8,7 @@ from checks.common import INF, is_num
 from mc.enumerate import multisets_upto, distinct_permutations
 from oracles import simple as OS
 
+CALL_VARIANTS = True   # every whitelisted persim call is repeated with its arrays in another memory layout (mc/ctx.py)
 PROPERTY = "C16"
 LENGTHS = [0.5, 1.0, 2.0, 3.0]
 BIRTHS = [[0.0, 0.0, 0.0, 0.0, 0.0], [0.0, 1.0, 2.0, 5.0, 3.0], [-3.0, 1.0, -1.0, 2.0, -7.5]]
